@@ -176,7 +176,7 @@ let ind_text (i : indication) : string =
   | IFault (c, p) -> Printf.sprintf "FAULT %d %s" (code_of_cond c) (sn p)
   | IAbandon (c, p) -> Printf.sprintf "ABANDON %d %s" (code_of_cond c) (sn p)
 
-let obs_line res (outs : out list) st hp ut pr dest =
+let obs_line ?(idle = "") res (outs : out list) st hp ut pr dest =
   let outs = List.rev outs in
   let pdus =
     List.filter_map
@@ -189,8 +189,8 @@ let obs_line res (outs : out list) st hp ut pr dest =
       outs
   in
   let inds = List.filter_map (function OInd i -> Some (ind_text i) | OPdu _ -> None) outs in
-  Printf.printf "%s P[%s] I[%s] st=%s hp=%d ut=%s pr=%s D=%s\n"
-    (match res with ROk -> "ok" | RUnexpected -> "unexpected" | RErr -> "err")
+  Printf.printf "%s%s P[%s] I[%s] st=%s hp=%d ut=%s pr=%s D=%s\n"
+    (match res with ROk -> "ok" | RUnexpected -> "unexpected" | RErr -> "err") idle
     (String.concat ";" pdus) (String.concat ";" inds) (state_ch st) (if hp then 1 else 0)
     (match ut with None -> "MAX" | Some x -> sn x)
     (sn pr)
@@ -204,6 +204,7 @@ let run_recv path =
       let now = ref Z.zero in
       let st = ref (r_new N0 c.cfg c.nakp ([] : fsx)) in
       let stop = ref false in
+      let idle = ref "" in
       List.iter
         (fun l ->
           if !stop then print_endline "skipped"
@@ -229,11 +230,38 @@ let run_recv path =
               | [ "REPORT" ] -> step RReportOp
               | [ "ABANDON" ] -> step RAbandonOp
               | [ "PROMPT"; _ ] -> (ROk, [])
+              | [ "IDLE"; k ] ->
+                  let k = int_of_string k in
+                  let it = ref 0 and acc = ref [] and r = ref ROk and t0 = !now in
+                  (try
+                     while !it < k do
+                       let s = !st in
+                       if s.r_state = TTerminated then raise Exit;
+                       (if has_pdu_to_send s then begin
+                          let rr, o = step RSend in
+                          r := rr;
+                          acc := o @ !acc
+                        end
+                        else
+                          match until_timeout (nown ()) s with
+                          | Some d ->
+                              now := Z.add !now (z_of_n d);
+                              let rr, o = step RTimeout in
+                              r := rr;
+                              acc := o @ !acc
+                          | None -> raise Exit);
+                       incr it;
+                       if !r <> ROk then raise Exit
+                     done
+                   with Exit -> ());
+                  idle := Printf.sprintf " idle=%d/%s" !it (Z.to_string (Z.sub !now t0));
+                  (!r, !acc)
               | _ -> failwith ("recv: bad op " ^ l)
             in
             let s = !st in
             let dest = flat_lookup s.r_fs c.dst in
-            obs_line res outs s.r_state (has_pdu_to_send s) (until_timeout (nown ()) s) s.r_recvd dest;
+            obs_line ~idle:!idle res outs s.r_state (has_pdu_to_send s) (until_timeout (nown ()) s) s.r_recvd dest;
+            idle := "";
             if res = RErr || s.r_state = TTerminated then stop := true)
         ops)
     (read_cases path)
@@ -250,6 +278,7 @@ let run_send path =
       in
       let st = ref (s_new N0 c.cfg md c.file) in
       let stop = ref false in
+      let idle = ref "" in
       List.iter
         (fun l ->
           if !stop then print_endline "skipped"
@@ -275,10 +304,37 @@ let run_send path =
               | [ "REPORT" ] -> step SReportOp
               | [ "ABANDON" ] -> step SAbandonOp
               | [ "PROMPT"; p ] -> step (SPromptOp (if p = "N" then PNak else PKeepAlive))
+              | [ "IDLE"; k ] ->
+                  let k = int_of_string k in
+                  let it = ref 0 and acc = ref [] and r = ref ROk and t0 = !now in
+                  (try
+                     while !it < k do
+                       let s = !st in
+                       if s.s_state = TTerminated then raise Exit;
+                       (if s_has_pdu_to_send s then begin
+                          let rr, o = step SSend in
+                          r := rr;
+                          acc := o @ !acc
+                        end
+                        else
+                          match s_until_timeout (nown ()) s with
+                          | Some d ->
+                              now := Z.add !now (z_of_n d);
+                              let rr, o = step STimeout in
+                              r := rr;
+                              acc := o @ !acc
+                          | None -> raise Exit);
+                       incr it;
+                       if !r <> ROk then raise Exit
+                     done
+                   with Exit -> ());
+                  idle := Printf.sprintf " idle=%d/%s" !it (Z.to_string (Z.sub !now t0));
+                  (!r, !acc)
               | _ -> failwith ("send: bad op " ^ l)
             in
             let s = !st in
-            obs_line res outs s.s_state (s_has_pdu_to_send s) (s_until_timeout (nown ()) s) s.s_sent None;
+            obs_line ~idle:!idle res outs s.s_state (s_has_pdu_to_send s) (s_until_timeout (nown ()) s) s.s_sent None;
+            idle := "";
             if res = RErr || s.s_state = TTerminated then stop := true)
         ops)
     (read_cases path)
